@@ -256,9 +256,14 @@ fn check_trees(c: &RtCase, ctx: &mut Ctx) -> Result<(), Fail> {
     ctx.label_if(coded, "trees/zero-centred-coded-features");
     let (x, x2, q) = if coded { (dm(&zero_centred(&c.x, &c.x)), dm(&zero_centred(&c.x2, &c.x2)), dm(&zero_centred(&c.q, &c.x))) } else { (dm(&c.x), dm(&c.x2), dm(&c.q)) };
     let seed = (c.param * 1e6) as u64;
+    // optional parameter (max_depth) set in every other case
+    let limited = ((c.param * 512.0) as u64) % 2 == 1;
+    ctx.label_if(limited, "trees/max_depth-set");
+    let tcp = || if limited { DecisionTreeClassifierParameters::default().with_max_depth(3) } else { DecisionTreeClassifierParameters::default() };
+    let trp = || if limited { DecisionTreeRegressorParameters::default().with_max_depth(3) } else { DecisionTreeRegressorParameters::default() };
     match c.which {
-        0 => model!(ctx, "tree_classifier", DecisionTreeClassifier::fit(&x, &c.y_cls, DecisionTreeClassifierParameters::default()), DecisionTreeClassifier::fit(&x2, &c.y2_cls, DecisionTreeClassifierParameters::default()), |m: &DecisionTreeClassifier<f64>| pv(m.predict(&q))),
-        1 => model!(ctx, "tree_regressor", DecisionTreeRegressor::fit(&x, &c.y_reg, DecisionTreeRegressorParameters::default()), DecisionTreeRegressor::fit(&x2, &c.y2_reg, DecisionTreeRegressorParameters::default()), |m: &DecisionTreeRegressor<f64>| pv(m.predict(&q))),
+        0 => model!(ctx, "tree_classifier", DecisionTreeClassifier::fit(&x, &c.y_cls, tcp()), DecisionTreeClassifier::fit(&x2, &c.y2_cls, tcp()), |m: &DecisionTreeClassifier<f64>| pv(m.predict(&q))),
+        1 => model!(ctx, "tree_regressor", DecisionTreeRegressor::fit(&x, &c.y_reg, trp()), DecisionTreeRegressor::fit(&x2, &c.y2_reg, trp()), |m: &DecisionTreeRegressor<f64>| pv(m.predict(&q))),
         2 => model!(ctx, "forest_classifier", RandomForestClassifier::fit(&x, &c.y_cls, RandomForestClassifierParameters::default().with_n_trees(7).with_seed(seed).with_keep_samples(true)), RandomForestClassifier::fit(&x2, &c.y2_cls, RandomForestClassifierParameters::default().with_n_trees(5).with_seed(seed)), |m: &RandomForestClassifier<f64>| pv(m.predict(&q))),
         _ => model!(ctx, "forest_regressor", RandomForestRegressor::fit(&x, &c.y_reg, RandomForestRegressorParameters::default().with_n_trees(7).with_seed(seed).with_keep_samples(true)), RandomForestRegressor::fit(&x2, &c.y2_reg, RandomForestRegressorParameters::default().with_n_trees(5).with_seed(seed)), |m: &RandomForestRegressor<f64>| pv(m.predict(&q))),
     }
@@ -298,7 +303,23 @@ fn check_bayes(c: &RtCase, ctx: &mut Ctx) -> Result<(), Fail> {
             })
         }
         1 => model!(ctx, "multinomial_nb", MultinomialNB::fit(&xc, &c.y_cls, MultinomialNBParameters::default().with_alpha(alpha)), MultinomialNB::fit(&x2c, &c.y2_cls, MultinomialNBParameters::default().with_alpha(alpha)), |m: &MultinomialNB<f64, DM>| pv(m.predict(&qc))),
-        2 => model!(ctx, "bernoulli_nb", BernoulliNB::fit(&x, &c.y_cls, BernoulliNBParameters::default().with_alpha(alpha).with_binarize(0.5)), BernoulliNB::fit(&x2, &c.y2_cls, BernoulliNBParameters::default().with_alpha(alpha).with_binarize(0.5)), |m: &BernoulliNB<f64, DM>| pv(m.predict(&q))),
+        2 => {
+            // optional parameter left unset in every other case: binarize = None on data that is already 0/1
+            let unset = ((c.param * 512.0) as u64) % 2 == 1;
+            ctx.label_if(unset, "bernoulli_nb/binarize-unset");
+            let bin = |m: &Mat| dm(&m.map(|v| if v > 0.5 { 1.0 } else { 0.0 }));
+            let (xb, x2b, qb) = (bin(&c.x), bin(&c.x2), bin(&c.q));
+            let mk = || {
+                let mut p = BernoulliNBParameters::default().with_alpha(alpha);
+                p.binarize = if unset { None } else { Some(0.5) };
+                p
+            };
+            if unset {
+                model!(ctx, "bernoulli_nb", BernoulliNB::fit(&xb, &c.y_cls, mk()), BernoulliNB::fit(&x2b, &c.y2_cls, mk()), |m: &BernoulliNB<f64, DM>| pv(m.predict(&qb)))
+            } else {
+                model!(ctx, "bernoulli_nb", BernoulliNB::fit(&x, &c.y_cls, mk()), BernoulliNB::fit(&x2, &c.y2_cls, mk()), |m: &BernoulliNB<f64, DM>| pv(m.predict(&q)))
+            }
+        }
         _ => model!(ctx, "categorical_nb", CategoricalNB::fit(&xc, &ycat, CategoricalNBParameters::default().with_alpha(alpha)), CategoricalNB::fit(&x2c, &y2cat, CategoricalNBParameters::default().with_alpha(alpha)), |m: &CategoricalNB<f64, DM>| pv(m.predict(&dm(&counts(&c.x, 2.0))))),
     }
     Ok(())
@@ -479,7 +500,7 @@ fn s_functions(_t: Tier) -> BoxedStrategy<RtCase> {
 pub fn property() -> Property {
     Property {
         id: "C19",
-        quick_mult: 1,
+        quick_mult: 4,
         rule: "for each of 43 serialisable public types (2 linear-regression solvers, ridge, Lasso, elastic net, logistic regression, k-NN classifier / regressor x 2 algorithms, cover tree, linear search, trees x 2, forests x 2, four naive Bayes variants, SVC / SVR x 4 kernels, k-means, DBSCAN x 2 backends, PCA x 2 modes, truncated SVD, five distances, four kernels, DenseMatrix<f32/f64>) a model is fitted on generated data (10..40 rows, 2..5 features, 2..3 classes) and observed on fresh generated queries; a second data set with 5 more rows and different targets provides the 'different model'. non-trivial = every case (dense matrices: non-square with both dimensions >= 2); distinct = distinct serialised case",
         assumptions: vec![
             "JSON is parsed with serde_json's float_roundtrip feature, so decimal rounding is exact and the restored model must compare equal; observables through JSON may differ by 1e-12 relative".into(),
